@@ -358,7 +358,7 @@ func extractMain(args []string) {
 			if fd == nil || fd.Body == nil {
 				// a missing function is a fact too: expectations will not match
 				switch kind {
-				case "lock", "src":
+				case "lock", "src", "lockorder":
 					fmt.Fprintf(&lean, "def %s : String := \"<missing>\"\n", id)
 				case "calls":
 					fmt.Fprintf(&lean, "def %s : List String := [\"<missing>\"]\n", id)
@@ -371,6 +371,10 @@ func extractMain(args []string) {
 			switch kind {
 			case "lock":
 				v := lockFact(fset, fd)
+				fmt.Fprintf(&lean, "def %s : String := %s\n", id, leanString(v))
+				facts[id] = v
+			case "lockorder":
+				v := lockOrderFact(fset, fd)
 				fmt.Fprintf(&lean, "def %s : String := %s\n", id, leanString(v))
 				facts[id] = v
 			case "calls":
